@@ -616,3 +616,183 @@ def rollback_commit_order(ctx):
         qs.append(PMulti("%s: no fallible value is dropped uninspected" % nm, cfg, o2, fl2, {}, key="%s:swallowed result" % nm))
         enc.add("%s @ nomt/src/rollback/mod.rs" % nm)
     return qs, enc
+
+
+# ---------------------------------------------------------------------------------------------
+# C20: one directory, one live handle
+
+def _ok_arm(cfg, call_bb):
+    """The block control reaches when the Result produced by the call in `call_bb` is Ok/Continue:
+    follow the straight-line successors (through `Try::branch`) up to the first switch and take its
+    `0` arm. None if the shape is different (e.g. the result is stored and inspected elsewhere)."""
+    bb = call_bb
+    for _ in range(10):
+        b = cfg.blocks[bb]
+        if b.switch_on:
+            for k, tg in b.succ:
+                if k == "0":
+                    return tg
+            return None
+        if len(b.succ) != 1:
+            return None
+        if bb != call_bb and b.call and not re.search(r"Try>::branch|Result::<.*>::(inspect_err|inspect|map_err|map|context|with_context)\b|Context<.*>>::(context|with_context)", b.call[1]):
+            return None
+        bb = b.succ[0][1]
+    return None
+
+
+def _set_on_ok(cfg, ops, call_bbs, flag):
+    """`flag` becomes true where the call's result is known to be Ok (exact arm when the shape is the
+    usual `?` / `match`, else at the call itself)."""
+    exact = True
+    for bb in call_bbs:
+        arm = _ok_arm(cfg, bb)
+        if arm is None:
+            arm, exact = bb, False
+            ops.setdefault(arm, []).append(("set", flag))
+        else:
+            ops.setdefault(arm, []).insert(0, ("set", flag))
+    return exact
+
+
+DBFILE_OPEN = r"OpenOptions::open|File::create|File::open|File::options"
+# calls that change the directory's contents whatever their argument is
+FS_DESTRUCTIVE = r"(^|::)(remove_dir_all|remove_file|remove_dir|rename|hard_link|set_len|set_permissions|create_dir)(::<|$)"
+
+
+def _touching_closures(prog, parent, touch):
+    """closure types (as they appear in MIR callee / argument text) of closures defined inside `parent`
+    whose own body contains a file-touching call."""
+    out = []
+    for nm, fs in prog.fns.items():
+        if not nm.startswith(parent.name + "::{closure#"):
+            continue
+        for g in fs:
+            try:
+                gcfg = pathsmt.Cfg(g)
+            except Exception:
+                continue
+            hit = False
+            for bb in gcfg.order:
+                c = gcfg.blocks[bb].call
+                if c and any(re.search(crx, c[1]) and (trx is None or re.search(trx, c[3] or "")) for crx, trx in touch):
+                    hit = True
+            m = re.search(r"\{closure@[^}]*\}", g.args[0][1]) if g.args else None
+            if hit and m:
+                out.append(m.group(0))
+    return out
+
+
+def dir_lock_first(ctx):
+    """store::create / Store::open: the advisory lock on `.lock` is held (Flock::lock returned Ok)
+    before any database file is created, opened, read or written, before the I/O pool is started,
+    and on every path that returns Ok."""
+    prog = ctx.program("nomt")
+    qs, enc = [], set()
+    for rx, nm, lock_rx, touch in [
+        (r"^store::create$", "store::create", r"Flock::lock",
+         [(DBFILE_OPEN, r"join\("), (r"Meta::write|ht_file::create|bitbox::create|beatree::create", None), (FS_DESTRUCTIVE, None)]),
+        (r"^store::.*>::open$", "Store::open", r"Flock::lock|^create$|store::create",
+         [(DBFILE_OPEN, r"join\("), (r"Meta::read|Tree::open|DB::open|Rollback::read|start_io_pool", None), (FS_DESTRUCTIVE, None)]),
+    ]:
+        f = _fn(prog, rx, "store/mod.rs")
+        cfg = pathsmt.Cfg(f)
+        locks = [bb for bb in cfg.order if cfg.blocks[bb].call and re.search(lock_rx, cfg.blocks[bb].call[1])]
+        if not locks:
+            raise Unmatched("no Flock::lock call in " + nm)
+        ops = {}
+        n_touch = 0
+        # a closure that touches files counts where it is handed to a call (inspect_err, map_err, ...)
+        ctouch = [(DBFILE_OPEN, None)] + [t for t in touch if t[0] != DBFILE_OPEN]
+        closures = _touching_closures(prog, f, ctouch)
+        for bb in cfg.order:
+            b = cfg.blocks[bb]
+            if not b.call or bb in locks:
+                continue
+            if any(ct in b.call[1] or ct in cfg.fn.locals.get(a.replace("move ", "").replace("copy ", "").strip(), "")
+                   for ct in closures for a in [""] + b.call[2].split(",")):
+                ops.setdefault(bb, []).append(("bad_unless", "locked"))
+                continue
+            for crx, trx in touch:
+                if re.search(crx, b.call[1]) and (trx is None or re.search(trx, b.call[3] or "")):
+                    ops.setdefault(bb, []).append(("bad_unless", "locked"))
+                    n_touch += 1
+                    break
+        if n_touch < 2:
+            raise Unmatched("file-touching events not found in " + nm)
+        _set_on_ok(cfg, ops, locks, "locked")
+        oks = _ok_blocks(cfg)
+        if not oks:
+            raise Unmatched("no Ok block in " + nm)
+        for bb in oks:
+            ops.setdefault(bb, []).append(("bad_unless", "locked"))
+        qs.append(PQuery("%s: the directory lock is held before any database file is touched and on success" % nm, cfg, ops, ["locked"], {},
+                         scenario=["c20_lock_order", "c20_refused_open"], key="%s:database file touched without the directory lock" % nm))
+        qs.append(PQuery("%s: Ok is reachable" % nm, cfg, {bb: [("bad", None)] for bb in oks}, [], {}, expect="sat"))
+        enc.add("%s @ nomt/src/store/mod.rs" % nm)
+    return qs, enc
+
+
+def flock_result(ctx):
+    """store::flock::Flock::lock: Ok(Flock) is returned only on the path where try_lock_exclusive
+    reported success; the lock call's result is never dropped uninspected."""
+    prog = ctx.program("nomt")
+    f = _fn(prog, r"flock.*::lock$", "store/flock.rs")
+    cfg = pathsmt.Cfg(f)
+    calls = [bb for bb in cfg.order if cfg.blocks[bb].call and re.search(r"try_lock_exclusive|lock_exclusive", cfg.blocks[bb].call[1])]
+    if not calls:
+        raise Unmatched("Flock::lock does not call try_lock_exclusive")
+    ops = {}
+    exact = _set_on_ok(cfg, ops, calls, "lock_ok")
+    oks = _ok_blocks(cfg)
+    if not oks:
+        raise Unmatched("no Ok block in Flock::lock")
+    for bb in oks:
+        ops.setdefault(bb, []).append(("bad_unless", "lock_ok"))
+    qs = [PQuery("Flock::lock: Ok only after try_lock_exclusive succeeded%s" % ("" if exact else " (call-level)"), cfg, ops, ["lock_ok"], {},
+                 scenario="c20_second_open", key="Flock::lock:Ok without holding the lock"),
+          PQuery("Flock::lock: Ok is reachable", cfg, {bb: [("bad", None)] for bb in oks}, [], {}, expect="sat")]
+    o2, fl2, defs = _swallow_ops(cfg)
+    if not defs:
+        raise Unmatched("no fallible value in Flock::lock")
+    qs.append(PMulti("Flock::lock: no fallible value is dropped uninspected", cfg, o2, fl2, {}, scenario="c20_second_open",
+                     key="Flock::lock:swallowed result"))
+    return qs, {"store::flock::Flock::lock @ nomt/src/store/flock.rs"}
+
+
+def release_after_drain(ctx):
+    """Drop for store::Shared: the I/O pool is shut down before the directory lock is released;
+    io::IoPool::shutdown closes the channel and joins the workers before it returns."""
+    prog = ctx.program("nomt")
+    qs, enc = [], set()
+    f = _fn(prog, r"^store::<impl.*>::drop$", "store/mod.rs", r"store::Shared")
+    cfg = pathsmt.Cfg(f)
+    table = [(r"IoPool::shutdown", None, [("set", "drained")]),
+             (r"Option::<(store::flock::)?Flock>::take|drop::<Option<(store::flock::)?Flock>>|drop::<(store::flock::)?Flock>|drop_in_place::<.*Flock", None, [("bad_unless", "drained")])]
+    ops, hits = _events(cfg, table)
+    rets = [bb for bb in cfg.order if cfg.blocks[bb].is_return]
+    for bb in rets:
+        ops.setdefault(bb, []).append(("bad_unless", "drained"))
+    for bb in cfg.order:  # a `drop(_x)` terminator of a Flock-typed local
+        b = cfg.blocks[bb]
+        if b.drop and re.search(r"Flock", cfg.fn.locals.get(b.drop.strip(), "")):
+            ops.setdefault(bb, []).append(("bad_unless", "drained"))
+    qs.append(PQuery("Drop for Shared: IoPool::shutdown precedes the release of the directory lock and the return", cfg, ops, ["drained"], {},
+                     scenario="c20_release_order", key="Drop for Shared:lock released before the I/O pool drained"))
+    qs.append(PQuery("Drop for Shared: return is reachable", cfg, {bb: [("bad", None)] for bb in rets}, [], {}, expect="sat"))
+    enc.add("Drop for store::Shared @ nomt/src/store/mod.rs")
+
+    f = _fn(prog, r"^io::<impl.*>::shutdown$", "io/mod.rs")
+    cfg = pathsmt.Cfg(f)
+    table = [(r"Option::<Arc<.*Sender<.*>>>::take|drop::<Arc<.*Sender", None, [("set", "closed")]),
+             (r"ThreadPool::join", None, [("bad_unless", "closed"), ("set", "joined")])]
+    ops, hits = _events(cfg, table)
+    _require(table[:1], hits[:1], "IoPool::shutdown")
+    rets = [bb for bb in cfg.order if cfg.blocks[bb].is_return]
+    for bb in rets:
+        ops.setdefault(bb, []).append(("bad_unless", "joined"))
+    qs.append(PQuery("IoPool::shutdown: channel closed, then workers joined, before it returns", cfg, ops, ["closed", "joined"], {},
+                     scenario="c20_release_order", key="IoPool::shutdown:returns without joining the workers"))
+    qs.append(PQuery("IoPool::shutdown: return is reachable", cfg, {bb: [("bad", None)] for bb in rets}, [], {}, expect="sat"))
+    enc.add("io::IoPool::shutdown @ nomt/src/io/mod.rs")
+    return qs, enc
